@@ -376,6 +376,8 @@ def run(P, chk, tier):
             continue
         rv = guard._val(rexp)
         rk = pp(rv)
+        if cval(rv) is not None and cval(rv) < 0:
+            continue                # `return -1`: no slot
         for d in ds:
             t = set(d)
             t.add(guard.Fact(">=", rv, guard.mkint(0)))
